@@ -424,6 +424,13 @@ func c07(c *Ctx) {
 			[2][]pv{{{"m", st(gfield{"Rows", arr(2, st(gfield{"Cell", st(gfield{"Lo", bt("uint8")}, gfield{"Hi", bt("uint64")})}, gfield{"Tag", bt("uint16")}))})}}, nil},
 			[2][]pv{{{"d", arr(2, st(gfield{"A", arr(2, st(gfield{"B", arr(2, st(gfield{"C", arr(2, pt)}, gfield{"Z", bt("complex128")}))}, gfield{"S", bt("string")}))}, gfield{"L", &gty{Kind: "slice", Elem: bt("uint8")}}))}}, {{"o", st(gfield{"P", st(gfield{"Q", st(gfield{"R", pt})})})}}},
 		)
+		// the same signature text in two packages of the same name whose type of that name is laid out differently
+		nm := func(t *gty) *gty { return &gty{Kind: "named", Elem: t} }
+		corpus = append(corpus,
+			[2][]pv{{{"e", nm(st(gfield{"N", bt("uint32")}, gfield{"V", arr(4, bt("uint64"))}))}}, {{"r", bt("uint64")}}},
+			[2][]pv{{{"e", nm(st(gfield{"V", arr(4, bt("uint64"))}, gfield{"N", bt("uint32")}))}}, {{"r", bt("uint64")}}},
+			[2][]pv{{{"e", nm(st(gfield{"B", bt("uint8")}, gfield{"V", arr(4, bt("uint64"))}, gfield{"N", bt("uint32")}))}}, {{"r", bt("uint64")}}},
+		)
 		if j < len(corpus) {
 			ps, rs = corpus[j][0], corpus[j][1]
 		}
